@@ -22,7 +22,7 @@ var c16Assets = []string{"BTC", "BTCe", "BTCelys", "BTCelysx", "ETH", "ETHband",
 var c16Sources = []string{"elys", "band", "x", "ys", "lys", "e", "elysx", "bandx", "zzz"}
 
 type c16Op struct {
-	Kind   string `json:"kind"` // feed | feedmulti | setactive | delfeeder | addfeeder | rmfeeder | endblock | lookup | denomlookup | params | assetinfo | rminfo
+	Kind   string `json:"kind"`          // feed | feedmulti | setactive | delfeeder | addfeeder | rmfeeder | endblock | lookup | denomlookup | params | assetinfo | rminfo
 	Who    int    `json:"who,omitempty"` // account index (0..2 users, 3 = feeder)
 	Asset  string `json:"asset,omitempty"`
 	Source string `json:"source,omitempty"`
@@ -46,17 +46,17 @@ type mPrice struct {
 }
 
 type c16Machine struct {
-	w       *World
-	ctx     sdk.Context
-	actors  []*Account
-	Prices  map[string]mPrice // key asset|source|ts
-	Feeders map[string]bool   // addr -> active
-	Infos   map[string]oracletypes.AssetInfo
-	Expiry  uint64
-	Life    uint64
-	Ops     []c16Op
-	Labels  map[string]bool
-	NT      bool
+	w        *World
+	ctx      sdk.Context
+	actors   []*Account
+	Prices   map[string]mPrice // key asset|source|ts
+	Feeders  map[string]bool   // addr -> active
+	Infos    map[string]oracletypes.AssetInfo
+	Expiry   uint64
+	Life     uint64
+	Ops      []c16Op
+	Labels   map[string]bool
+	NT       bool
 	Excluded map[string]int
 	KnownHit map[string]bool
 }
